@@ -161,7 +161,7 @@ inline Msg gen_request(const Opts &o, int idx, bool first) {
     if (o.cookies && rcx::chance(1, 4)) { std::string cv; int nc = rcx::range(1, 3); for (int i = 0; i < nc; i++) { if (i) cv += rcx::coin() ? "; " : ";"; if (rcx::chance(1, 10)) { cv += rcx::coin() ? "" : " "; continue; } /* an empty element */ cv += "c" + gen_token(1, 3) + (rcx::chance(4, 5) ? "=" + gen_token(0, 5) + (rcx::chance(1, 6) ? "=" + gen_token(0, 3) : "") : ""); } if (rcx::chance(1, 8)) cv += ";"; Hdr h; h.name = rand_case("Cookie"); h.lines.push_back(gen_ows(1) + cv); m.headers.push_back(h); }
     if (o.auth && rcx::chance(1, 5)) { std::string u = "usr" + gen_token(0, 4), p = "pw" + gen_token(0, 4) + (rcx::chance(1, 4) ? ":x" : ""); static const char *b64 = "ABCDEFGHIJKLMNOPQRSTUVWXYZabcdefghijklmnopqrstuvwxyz0123456789+/"; std::string raw = u + ":" + p, enc; for (size_t i = 0; i < raw.size(); i += 3) { unsigned v = (unsigned char)raw[i] << 16; if (i + 1 < raw.size()) v |= (unsigned char)raw[i + 1] << 8; if (i + 2 < raw.size()) v |= (unsigned char)raw[i + 2]; enc += b64[(v >> 18) & 63]; enc += b64[(v >> 12) & 63]; enc += i + 1 < raw.size() ? b64[(v >> 6) & 63] : '='; enc += i + 2 < raw.size() ? b64[v & 63] : '='; } if (rcx::chance(1, 3)) while (!enc.empty() && enc.back() == '=') enc.pop_back(); /* padding omitted */ Hdr h; h.name = rand_case("Authorization");
         if (rcx::chance(1, 3)) { // Digest: the user name is a quoted string (commas, spaces, '=' and escaped quotes are all legal inside it)
-            static const std::string uc = "abcXYZ019 ,;=.-_@"; std::string un; int n = rcx::range(1, 10); for (int i = 0; i < n; i++) { if (rcx::chance(1, 12)) un += "\\\""; else un += uc[rcx::range(0, (int)uc.size() - 1)]; }
+            static const std::string uc = "abcXYZ019 ,;=.-_@"; std::string un; int n = rcx::range(1, 10); for (int i = 0; i < n; i++) { if (rcx::chance(1, 12)) un += "\\\""; else if (rcx::chance(1, 12)) un += "\\\\"; else un += uc[rcx::range(0, (int)uc.size() - 1)]; } if (rcx::chance(1, 10)) un += "\\\\"; // quoted-pairs other than \" too, also as the last thing before the closing quote
             std::string pre = rcx::coin() ? "" : "realm=\"r, x\", ", post = rcx::coin() ? ", nonce=\"n1\", uri=\"/\", response=\"0a\"" : "";
             h.lines.push_back(" Digest " + pre + "username=\"" + un + "\"" + post); }
         else h.lines.push_back(" Basic " + enc);
@@ -209,7 +209,7 @@ inline Exchange gen_exchange(const Opts &o) {
     for (int i = 0; i < n; i++) {
         Msg rq = gen_request(o, i, i == 0);
         bool expect = o.expect100 && rq.framing != F_NONE && rq.version == "HTTP/1.1" && rcx::chance(1, 6);
-        if (expect) { Hdr h; h.name = "Expect"; h.lines.push_back(" 100-continue"); rq.headers.push_back(h); }
+        if (expect) { Hdr h; h.name = "Expect"; h.lines.push_back(" " + rand_case("100-continue")); rq.headers.push_back(h); } // the expectation is case-insensitive
         x.req.push_back(rq);
         if (expect && rcx::chance(2, 3)) { int n100 = (o.many_interim && rcx::chance(1, 3)) ? rcx::range(2, 3) : 1;
             for (int q = 0; q < n100; q++) { Msg c; c.req = false; c.interim = true; c.version = "HTTP/1.1"; c.status = "100"; c.reason = "Continue"; c.tag = "i" + std::to_string(i); c.eol = "\r\n"; if (o.many_interim && rcx::chance(1, 4)) { Hdr h; h.name = "X-Interim"; h.lines.push_back(" " + std::to_string(q)); c.headers.push_back(h); } x.res.push_back(c); } }
